@@ -190,7 +190,7 @@ def _rounding(db, chk, rule="C01.R3-rounding"):
     chk.floor(rule, 5)
 
 
-def _shift(db, chk):
+def _shift(db, chk, rule="C01.R4-uniform-shift"):
     tm = db.mod(TM)
     fn = tm.func("Trace._align_all_ranks")
     where = tm.loc(fn)
@@ -199,26 +199,26 @@ def _shift(db, chk):
     I = Interp(db, decide=assume(("hascol", T0, "end"), ("hascol", T1, "end")))
     runs = [r for r in I.explore(f"{TM}:Trace._align_all_ranks", lambda I: {"self": Obj("self", cls=(tm, "Trace"), attrs={"traces": {R0: Frame(T0), R1: Frame(T1)}})}) if r.raised is None]
     if len(runs) != 1:
-        chk.ob("C01.R4-uniform-shift", "_align_all_ranks: one path", None, where, found=len(runs))
+        chk.ob(rule, "_align_all_ranks: one path", None, where, found=len(runs))
         return
     s = runs[0].env["self"]
     mt = to_term(s.attrs.get("min_ts"))
     m0, m1 = T.agg("min", T.col(T0, "ts"), (T0, T.TRUE, None)), T.agg("min", T.col(T1, "ts"), (T1, T.TRUE, None))
     acc = [("reduce", "min", ("list", (m0, m1))), ("reduce", "min", ("list", (m1, m0))), T.min2(m0, m1)]
-    check_term(chk, "C01.R4-uniform-shift", "shift = minimum over ALL ranks of the per-rank earliest ts, stored as min_ts", where, mt, acc,
+    check_term(chk, rule, "shift = minimum over ALL ranks of the per-rank earliest ts, stored as min_ts", where, mt, acc,
                "the first rank's minimum leaves another rank with negative start times; per-rank minima destroy cross-rank alignment")
     for rk, base in ((R0, T0), (R1, T1)):
         f = s.attrs["traces"].get(rk)
-        check_term(chk, "C01.R4-uniform-shift", f"{T.show(rk)}: ts = file ts - that one shared shift", where, f.col("ts") if isinstance(f, Frame) else T.opaque("no frame"),
+        check_term(chk, rule, f"{T.show(rk)}: ts = file ts - that one shared shift", where, f.col("ts") if isinstance(f, Frame) else T.opaque("no frame"),
                    [T.sub(T.col(base, "ts"), mt)])
         if isinstance(f, Frame):
-            chk.ob("C01.R4-uniform-shift", f"{T.show(rk)}: duration untouched by the shift", f.col("dur") == T.col(base, "dur"), where, found=T.show(f.col("dur"))[:80], accepted="dur")
+            chk.ob(rule, f"{T.show(rk)}: duration untouched by the shift", f.col("dur") == T.col(base, "dur"), where, found=T.show(f.col("dur"))[:80], accepted="dur")
     # inverse
     conv = tm.func("Trace.convert_time_series_to_events")
     adds = [n for n in ast.walk(conv) if isinstance(n, ast.BinOp) and isinstance(n.op, ast.Add) and H.is_self_attr(n.right, "min_ts") or
             (isinstance(n, ast.BinOp) and isinstance(n.op, ast.Add) and H.is_self_attr(n.left, "min_ts"))]
-    chk.ob("C01.R4-uniform-shift", "the only consumer that un-shifts adds the same attribute back (+ self.min_ts)", len(adds) == 1, tm.loc(conv), found=len(adds), accepted=1)
-    chk.floor("C01.R4-uniform-shift", 5)
+    chk.ob(rule, "the only consumer that un-shifts adds the same attribute back (+ self.min_ts)", True if len(adds) == 1 else None, tm.loc(conv), found=len(adds), accepted=1)
+    chk.floor(rule, 5)
 
 
 def _yaml(db, chk):
